@@ -8,6 +8,7 @@ import (
 	"bufio"
 	"bytes"
 	"context"
+	"errors"
 	"fmt"
 	"io"
 	"log"
@@ -310,9 +311,16 @@ func (d *serverDriver) stop() {
 // do writes the request as raw bytes (so that the request target arrives unchanged) and reads
 // until the server closes the connection, which it does only after the handler has returned.
 func (d *serverDriver) do(r Req, body []byte, hasBody bool) response {
-	conn, err := net.DialTimeout(d.network, d.addr, 20*time.Second)
+	resp, _ := wireDo(d.network, d.addr, r, body, hasBody)
+	return resp
+}
+
+// wireDo sends one request over a fresh connection. timedOut reports that the 60 s safety net
+// (dial, write or read) was hit; no verdict may be based on such a response.
+func wireDo(network, addr string, r Req, body []byte, hasBody bool) (resp response, timedOut bool) {
+	conn, err := net.DialTimeout(network, addr, 20*time.Second)
 	if err != nil {
-		return response{Err: "dial: " + err.Error()}
+		return response{Err: "dial: " + err.Error()}, errors.Is(err, os.ErrDeadlineExceeded)
 	}
 	defer conn.Close()
 	conn.SetDeadline(time.Now().Add(60 * time.Second)) // safety net only; no verdict depends on it
@@ -332,11 +340,12 @@ func (d *serverDriver) do(r Req, body []byte, hasBody bool) response {
 	b.Write(body)
 	_, werr := conn.Write(b.Bytes())
 	raw, rerr := io.ReadAll(conn)
-	resp, err := http.ReadResponse(bufio.NewReader(bytes.NewReader(raw)), &http.Request{Method: strings.ToUpper(r.Method)})
+	timedOut = errors.Is(werr, os.ErrDeadlineExceeded) || errors.Is(rerr, os.ErrDeadlineExceeded)
+	hr, err := http.ReadResponse(bufio.NewReader(bytes.NewReader(raw)), &http.Request{Method: strings.ToUpper(r.Method)})
 	if err != nil {
-		return response{Err: fmt.Sprintf("no response (write: %v, read: %v, parse: %v, %d bytes)", werr, rerr, err, len(raw))}
+		return response{Err: fmt.Sprintf("no response (write: %v, read: %v, parse: %v, %d bytes)", werr, rerr, err, len(raw))}, timedOut
 	}
-	rb, _ := io.ReadAll(resp.Body)
-	resp.Body.Close()
-	return response{Status: resp.StatusCode, Body: rb}
+	rb, _ := io.ReadAll(hr.Body)
+	hr.Body.Close()
+	return response{Status: hr.StatusCode, Body: rb}, timedOut
 }
